@@ -630,87 +630,83 @@ func (r *stateResolverV2) calculateFullAuthChainAndConflictedSubgraph(
 	fullAuthChains = newPDUSet(nil)
 	conflictedSubgraph = newPDUSet(nil)
 
-	type pduVisitors struct {
-		pdu PDU
-		// the current exploration path
-		visiting []string
-		// flag to indicate that the starting node is conflicted.
-		// We are only interested in doing the book-keeping for 'visiting' for conflicted events.
-		originConflicted bool
-	}
-	initial := make([]pduVisitors, len(stateSet))
-	for i, p := range stateSet {
-		initial[i] = pduVisitors{
-			pdu: p,
-			// we iteratively add event IDs to this as we walk, so we know the path from
-			// a conflicted origin event to a potential conflicted event.
-			visiting:         nil,
-			originConflicted: conflictedEvents.Contains(p),
-		}
-	}
-
-	// Using a stack ensure that we do DFS walks, which will consume less memory as we can short-circuit
-	// earlier when we reach events we've already seen.
-	stack := lane.NewStack(initial...)
+	// The full auth chain: every auth event reachable from the state set. Using a stack ensures
+	// that we do DFS walks; events we have already seen are not walked again.
+	stack := lane.NewStack(stateSet...)
 	for stack.Size() > 0 {
 		curr, ok := stack.Pop()
 		if !ok {
 			break
 		}
-		// determine if we need to do extra book-keeping on the visiting set
-		shouldCalculateConflictedSubgraph := stateResAlgo == StateResV2_1 && curr.originConflicted
-
-		// check if the current node is conflicted. If so, then ta-da, we found
-		// a subgraph. This will add single conflicted nodes but shrug.
-		if shouldCalculateConflictedSubgraph && conflictedEvents.Contains(curr.pdu) {
-			conflictedSubgraphEventIDs := append(slices.Clone(curr.visiting), curr.pdu.EventID())
-			fmt.Printf("found conflicted subgraph %v\n", conflictedSubgraphEventIDs)
-			for _, eventID := range conflictedSubgraphEventIDs {
-				// a conflicted event that is not among the auth events is already
-				// part of the conflicted set; never insert a nil PDU.
-				if subgraphEvent, ok := r.authEventMap[eventID]; ok {
-					conflictedSubgraph.Insert(subgraphEvent)
-				}
-			}
-		}
-
-		for _, authEventID := range curr.pdu.AuthEventIDs() {
+		for _, authEventID := range curr.AuthEventIDs() {
 			authEvent, ok := r.authEventMap[authEventID]
 			if !ok {
 				// FIXME: we should return an error but prior code silently continued,
 				// so match the existing behaviour.
 				continue
 			}
-			// don't walk paths we've already walked
 			if fullAuthChains.Contains(authEvent) {
-				// ...unless we're tracking conflicted events in which case we need to re-walk:
-				//
-				// E1 <-- C1 <-- E2 <-- E3 <-- C2       C = conflicted
-				//                ^---- E4 <-- E5
-				//
-				// If we walk E5 -> E1 first then we would never find out that C2 -> C1 as we would
-				// have stopped at E2 due to having already walked it.
-				if !shouldCalculateConflictedSubgraph {
-					continue
-				}
-			}
-			fullAuthChains.Insert(authEvent)
-
-			if !shouldCalculateConflictedSubgraph {
-				stack.Push(pduVisitors{
-					pdu:      authEvent,
-					visiting: nil,
-				})
 				continue
 			}
+			fullAuthChains.Insert(authEvent)
+			stack.Push(authEvent)
+		}
+	}
+	if stateResAlgo != StateResV2_1 {
+		return fullAuthChains, conflictedSubgraph
+	}
 
-			// append this node to the visiting set
-			newVisiting := append(slices.Clone(curr.visiting), curr.pdu.EventID())
-			stack.Push(pduVisitors{
-				pdu:              authEvent,
-				visiting:         newVisiting,
-				originConflicted: curr.originConflicted,
-			})
+	// v2.1, the conflicted subgraph: the events on an auth path from a conflicted event of this
+	// state set to a conflicted event, end points included. An event is on such a path iff it is
+	// reachable from such an origin AND reaches a conflicted event (or is one):
+	//
+	// E1 <-- C1 <-- E2 <-- E3 <-- C2       C = conflicted
+	//                ^---- E4 <-- E5
+	//
+	// Both questions are answered by walks that visit every event once; enumerating the paths
+	// themselves is exponential in the length of the room's history.
+	reaches := make(map[string]bool, len(r.authEventMap))
+	var reachesConflicted func(p PDU) bool
+	reachesConflicted = func(p PDU) bool {
+		eventID := p.EventID()
+		if known, ok := reaches[eventID]; ok {
+			return known
+		}
+		reaches[eventID] = false // an auth-event cycle must not recurse for ever
+		result := conflictedEvents.Contains(p)
+		for _, authEventID := range p.AuthEventIDs() {
+			if authEvent, ok := r.authEventMap[authEventID]; ok && reachesConflicted(authEvent) {
+				result = true
+			}
+		}
+		reaches[eventID] = result
+		return result
+	}
+	seen := make(map[string]struct{}, len(r.authEventMap))
+	walk := make([]PDU, 0, len(stateSet))
+	for _, p := range stateSet {
+		if conflictedEvents.Contains(p) {
+			walk = append(walk, p)
+		}
+	}
+	for len(walk) > 0 {
+		curr := walk[len(walk)-1]
+		walk = walk[:len(walk)-1]
+		if _, ok := seen[curr.EventID()]; ok {
+			continue
+		}
+		seen[curr.EventID()] = struct{}{}
+		if reachesConflicted(curr) {
+			// a conflicted event that is not among the auth events is already
+			// part of the conflicted set; never insert a nil PDU.
+			if subgraphEvent, ok := r.authEventMap[curr.EventID()]; ok {
+				conflictedSubgraph.Insert(subgraphEvent)
+			}
+		}
+		for _, authEventID := range curr.AuthEventIDs() {
+			if authEvent, ok := r.authEventMap[authEventID]; ok {
+				walk = append(walk, authEvent)
+			}
 		}
 	}
 	return fullAuthChains, conflictedSubgraph
